@@ -445,7 +445,18 @@ func genC17(g *prng.R) c17Case {
 		}
 		sc.Requests = append(sc.Requests, sim.PostInboxReq(box, withCtx(act)))
 	}
-	preSeen := g.Chance(1, 8)
+	deletedBetween := false
+	if k >= 2 && !followCase && g.Chance(1, 15) {
+		// between two deliveries the peer deletes the activity (a Delete
+		// from the same origin naming it, which the default effect
+		// honours): the later delivery is still a repeated one
+		del := M{"type": "Delete", "id": fmt.Sprintf("%s/act/del%d", R1, g.Intn(1000000)), "actor": carol(), "object": actID}
+		rest := append([]sim.Request{sim.PostInboxReq(sc.Requests[0].URL, withCtx(del))}, sc.Requests[1:]...)
+		sc.Requests = append(sc.Requests[:1:1], rest...)
+		deletedBetween = true
+		cs0["deleted_between_deliveries"] = true
+	}
+	preSeen := g.Chance(1, 8) && !deletedBetween
 	if preSeen {
 		sc.Store[actID] = withCtx(act)
 	} else if g.Chance(1, 10) {
@@ -582,8 +593,12 @@ func init() {
 			if preSeen {
 				wantCreates = 0
 			}
+			hist := ""
+			if feats, _ := cs.Info["features"].(M); feats["deleted_between_deliveries"] == true {
+				hist = " (a Delete of the activity came between the deliveries)"
+			}
 			if creates != wantCreates {
-				viol("seen-record-count", "pub.(*sideEffectActor).InboxForwarding", "activity Create count", fmt.Sprintf("the activity was created %d times over the history, want %d", creates, wantCreates))
+				viol("seen-record-count", "pub.(*sideEffectActor).InboxForwarding", "activity Create count"+hist, fmt.Sprintf("the activity was created %d times over the history, want %d", creates, wantCreates))
 			}
 			if wantForward {
 				r.NonTrivial(jstr(sc.Requests) + jstr(cs.Info))
@@ -597,7 +612,7 @@ func init() {
 					viol("forward-count", "pub.(*sideEffectActor).InboxForwarding", "forwarded on a repeated delivery", fmt.Sprintf("the forward happened in request %s, not on the first delivery", forwards[0].Req))
 				}
 				if len(forwards) != 1 {
-					viol("forward-count", "pub.(*sideEffectActor).InboxForwarding", fmt.Sprintf("want 1 got %d", min(len(forwards), 2)), fmt.Sprintf("%d forwarding deliveries over a history of %d deliveries, want exactly 1 (collections %v, ownership hit %v)", len(forwards), len(sc.Requests), cols, hit))
+					viol("forward-count", "pub.(*sideEffectActor).InboxForwarding", fmt.Sprintf("want 1 got %d", min(len(forwards), 2))+hist, fmt.Sprintf("%d forwarding deliveries over a history of %d deliveries, want exactly 1 (collections %v, ownership hit %v)", len(forwards), len(sc.Requests), cols, hit))
 					return
 				}
 				f := forwards[0]
